@@ -78,6 +78,11 @@ def build_data(spec, loop=None):
                 v = SimDrop(v, loop, "drop." + k)
             elif isinstance(v, list):
                 v = [SimDrop(x, loop, "drop." + k) if isinstance(x, dict) else x for x in v]
+        st = (spec.get("seqtypes") or {}).get(k)
+        if st and isinstance(v, list):
+            # sequences that are not exactly `list`: still the caller's data, still not to be modified
+            import collections
+            v = {"deque": collections.deque, "userlist": collections.UserList, "tuple": tuple}[st](v)
         out[k] = v
     for k, v in spec.get("special", {}).items():
         out[k] = build_special(v)
@@ -259,7 +264,7 @@ def fingerprint(obj, _depth=0):
         return ("SimDrop", fingerprint(obj._d, _depth + 1))
     if isinstance(obj, dict):
         return (t, tuple((fingerprint(k, _depth + 1), fingerprint(v, _depth + 1)) for k, v in obj.items()))
-    if isinstance(obj, (list, tuple)):
+    if isinstance(obj, (list, tuple)) or t in ("deque", "UserList"):
         return (t, tuple(fingerprint(x, _depth + 1) for x in obj))
     if isinstance(obj, (datetime.datetime, datetime.date)):
         return (t, obj.isoformat(), repr(getattr(obj, "tzinfo", None)))
